@@ -265,7 +265,9 @@ def datetime_get(string):
         return default_values("datetime")
 
     if isinstance(string, dt.datetime):
-        return dt.datetime.strptime(string.strftime(FORMAT_DATETIME), FORMAT_DATETIME)
+        # Same result as writing and parsing the default format, which would
+        # fail for years below 1000 (strftime does not pad the year).
+        return string.replace(microsecond=0, tzinfo=None)
 
     return dt.datetime.strptime(string, FORMAT_DATETIME)
 
